@@ -19,6 +19,8 @@ KNOWN_NEWPDEF = "C03-new-problem-definition-keeps-old-tree"
 KNOWN_ML_NEWPDEF = "C03-multilevel-second-problem-definition-crashes"
 KNOWN_ML_LEAK = "C03-multilevel-goal-configuration-leak"
 MULTILEVEL = {"QRRT", "QRRTStar", "QMP", "QMPStar"}
+# multi-query planners override setProblemDefinition to clear the query themselves: a new problem definition without clear() must work there
+CLEARS_QUERY_ITSELF = {"PRM", "PRMstar", "LazyPRM", "LazyPRMstar", "SPARS", "SPARStwo"}
 
 
 def switches_without_clear(opnames):
@@ -151,7 +153,7 @@ def main():
         ops, live, skip, end, queries = parse_hist(out)
         if skip is not None: skipped[pl + " " + j.split()[2]] = skip[:100]; stats["skipped"] += 1; continue
         opnames = j.split()[6:]
-        tainted = switches_without_clear(opnames)
+        tainted = switches_without_clear(opnames) and pl not in CLEARS_QUERY_ITSELF
         ml_newpdef = pl in MULTILEVEL and any(o[0] == "N" for o in opnames)
         hist_slug = KNOWN_ML_NEWPDEF if ml_newpdef else (KNOWN_NEWPDEF if tainted else None)
         if not end:
@@ -173,7 +175,7 @@ def main():
             if o in ("C", "Q"): fresh = True; switched_without_clear = False; prev = None if o == "C" else prev
             if o[0] == "N":
                 if op.get("query"): pass
-                switched_without_clear = not fresh; prev = None
+                switched_without_clear = (not fresh) and pl not in CLEARS_QUERY_ITSELF; prev = None
             if o[0] not in "ST": continue
             st = op["status"]
             if st is None: pred(j, "no status observed for op %d '%s'" % (k, o)); continue
